@@ -15,6 +15,7 @@ import (
 	"strconv"
 	"strings"
 	"time"
+	"unicode/utf8"
 )
 
 // FilterFunc is a function that can be used as a filter
@@ -1112,7 +1113,7 @@ func length(v interface{}) (int, error) {
 
 	switch value := v.(type) {
 	case string:
-		return len(value), nil
+		return utf8.RuneCountInString(value), nil
 	case []interface{}:
 		return len(value), nil
 	case map[string]interface{}:
@@ -1122,7 +1123,9 @@ func length(v interface{}) (int, error) {
 	// Use reflection for other types
 	rv := reflect.ValueOf(v)
 	switch rv.Kind() {
-	case reflect.Array, reflect.Slice, reflect.Map, reflect.String:
+	case reflect.String:
+		return utf8.RuneCountInString(rv.String()), nil
+	case reflect.Array, reflect.Slice, reflect.Map:
 		return rv.Len(), nil
 	}
 
@@ -1370,8 +1373,8 @@ func (e *CoreExtension) filterFirst(value interface{}, args ...interface{}) (int
 
 	switch v := value.(type) {
 	case string:
-		if len(v) > 0 {
-			return string(v[0]), nil
+		for _, r := range v {
+			return string(r), nil // First character, not first byte
 		}
 		return "", nil
 	case []interface{}:
@@ -1390,9 +1393,8 @@ func (e *CoreExtension) filterFirst(value interface{}, args ...interface{}) (int
 	rv := reflect.ValueOf(value)
 	switch rv.Kind() {
 	case reflect.String:
-		s := rv.String()
-		if len(s) > 0 {
-			return string(s[0]), nil
+		for _, r := range rv.String() {
+			return string(r), nil
 		}
 		return "", nil
 	case reflect.Array, reflect.Slice:
@@ -1418,7 +1420,8 @@ func (e *CoreExtension) filterLast(value interface{}, args ...interface{}) (inte
 	switch v := value.(type) {
 	case string:
 		if len(v) > 0 {
-			return string(v[len(v)-1]), nil
+			_, size := utf8.DecodeLastRuneInString(v)
+			return v[len(v)-size:], nil
 		}
 		return "", nil
 	case []interface{}:
@@ -1434,7 +1437,8 @@ func (e *CoreExtension) filterLast(value interface{}, args ...interface{}) (inte
 	case reflect.String:
 		s := rv.String()
 		if len(s) > 0 {
-			return string(s[len(s)-1]), nil
+			_, size := utf8.DecodeLastRuneInString(s)
+			return s[len(s)-size:], nil
 		}
 		return "", nil
 	case reflect.Array, reflect.Slice:
